@@ -36,7 +36,7 @@ PLANS = {
         thorough=dict(mc=[M(4, d, 0, 0, 0, "none", 40, ["Inv_C14", "Inv_C15"], cont=False) for d in (0, 1, 2, 4)],
                       drv=["--no-machines", "--scenarios", 3000, "--max-packets", 200])),
     "C15": dict(
-        quick=dict(mc=[M(2, 1, 1, 1, 2, "block", 16, ["Inv_C15"], cont=False), M(2, 0, 1, 0, 2, "all", 14, ["Inv_C15"])],
+        quick=dict(mc=[M(2, 1, 1, 1, 2, "block", 16, ["Inv_C15"], cont=False), M(1, 0, 1, 0, 2, "all", 12, ["Inv_C15"])],
                    drv=["--scenarios", 250]),
         thorough=dict(mc=[M(2, 1, 1, 1, 2, "all", 18, ["Inv_C15"], cont=False), M(2, 0, 1, 1, 3, "block", 16, ["Inv_C15"])],
                       drv=["--scenarios", 2500])),
@@ -56,7 +56,7 @@ PLANS = {
         thorough=dict(mc=[M(1, 0, 2, 0, 4, "timer", 16, ["Inv_C18"]), M(2, 1, 1, 1, 4, "timer", 18, ["Inv_C18"])],
                       drv=["--scenarios", 2500])),
     "C19": dict(
-        quick=dict(mc=[M(2, 1, 1, 1, 2, "all", 14, ["Inv_C19"])],
+        quick=dict(mc=[M(1, 1, 1, 1, 2, "all", 12, ["Inv_C19"]), M(2, 1, 1, 0, 2, "block", 12, ["Inv_C19"])],
                    drv=["--scenarios", 250]),
         thorough=dict(mc=[M(2, 1, 1, 1, 2, "all", 18, ["Inv_C19", "Inv_C15", "Inv_C16", "Inv_C17", "Inv_C18"])],
                       drv=["--scenarios", 2500])),
